@@ -101,6 +101,25 @@ def handle (args : List Sexp) : String :=
       | none => "(none)"
       | some _ => "(some " ++ " ".intercalate (List.zipWith coerceTag ts vs) ++ ")"
     | _, _ => "(error bad-args)"
+  -- `(c16 bindnamed ((name T) …) ((name v) …))`: what `eval_function_named` binds the parameters to (one tag per
+  -- parameter, in the order of the declaration), `(none)` for the early null
+  | [.atom "bindnamed", .list ps, .list args] =>
+    let ps? := ps.mapM (fun e => match e with
+      | .list [k, t] => do pure ((← Sexp.str? k), (← typeOfSexp t))
+      | _ => none)
+    let args? := args.mapM (fun e => match e with
+      | .list [k, v] => do pure ((← Sexp.str? k), (← tvOfSexp v))
+      | _ => none)
+    match ps?, args? with
+    | some ps, some args =>
+      match ValOps.bindNamed TV.ops ps args with
+      | none => "(none)"
+      | some _ =>
+        "(some " ++ " ".intercalate (ps.map (fun p =>
+          match ValOps.namedLookup args p.1 with
+          | some v => coerceTag p.2 v
+          | none => "missing")) ++ ")"
+    | _, _ => "(error bad-args)"
   | [.atom "instanceof", v, t] =>
     match tvOfSexp v, typeOfSexp t with
     | some v, some t => s!"({TV.instanceOf v t} {FType.conf (TV.typeOf v) t})"
